@@ -170,6 +170,8 @@ type srvState struct {
 	Which    string   `json:"tg_which"`
 	Gate     *gateObs `json:"gate"`
 	Stacks   string   `json:"tg_stacks"`
+	// server-side cancellation: the source call in which the request context was first done (-1 = never)
+	CancelSeen int `json:"cancel_seen"`
 }
 
 // gateObs is what the gate writer of c12srv/gate.go saw (Mechanism A).
@@ -254,6 +256,14 @@ type Scenario struct {
 	Hist     string `json:"hist,omitempty"`
 	Pos      int    `json:"pos"`
 	Server   string `json:"server,omitempty"` // which kind of child served it (race | plain-1p)
+	// SERVER-SIDE cancellation of the request context, the client stays connected and reads to EOF (round 4):
+	// CancelMode cancel | timeout = context.WithCancel / WithTimeout(CancelNs) middleware around the real
+	// handler.Server; the context ends inside the source's call number CancelAt + 1 (after CancelAt payloads);
+	// the source then produces its remaining payloads regardless. CancelSeen = what the server observed.
+	CancelMode string `json:"cancel_mode,omitempty"`
+	CancelAt   int    `json:"cancel_at"`
+	CancelNs   int64  `json:"cancel_ns,omitempty"`
+	CancelSeen int    `json:"cancel_seen"`
 	// set only in the replay object of a violation: all requests of the history, in order
 	HistSteps []*Scenario `json:"history_steps,omitempty"`
 	// phase G (generated code): the operation, its plan and gate script, and what was expected
@@ -298,8 +308,12 @@ func (c *child) run(s *Scenario) {
 		Hold       string  `json:"hold"`
 		FailAt     int     `json:"fail_at"`
 		FailMode   string  `json:"fail_mode"`
+		CancelMode string  `json:"cancel_mode"`
+		CancelAt   int     `json:"cancel_at"`
+		CancelNs   int64   `json:"cancel_ns"`
 	}
-	sj, _ := json.Marshal(wire{s.ID, s.N, s.Sizes, s.DelaysNs, s.EndDelayNs, s.Hold, s.FailAt, s.FailMode})
+	s.CancelSeen = -1
+	sj, _ := json.Marshal(wire{s.ID, s.N, s.Sizes, s.DelaysNs, s.EndDelayNs, s.Hold, s.FailAt, s.FailMode, s.CancelMode, s.CancelAt, s.CancelNs})
 	ep := "g"
 	if s.Hold != "" {
 		ep = "h"
@@ -412,6 +426,9 @@ func (c *child) run(s *Scenario) {
 			}
 		} else {
 			s.Produced, s.Returned = st.Produced, st.Returned
+			if st.Found && s.CancelMode != "" {
+				s.CancelSeen = st.CancelSeen
+			}
 			if s.Produced == nil {
 				s.Produced = []int{}
 			}
